@@ -43,7 +43,7 @@ func ruleT6(c *Ctx) {
 		if sw.Tag != nil {
 			// scale switch: tag is an int field
 			if sel, ok := ast.Unparen(sw.Tag).(*ast.SelectorExpr); ok && sel.Sel.Name == "Scale" {
-				want := map[int64]int64{1: 0x00, 2: 0x40, 4: 0x80, 8: 0xC0}
+				want := map[int64]int64{0: 0x00, 1: 0x00, 2: 0x40, 4: 0x80, 8: 0xC0} // 0: no index register — the ss bits are zero
 				for _, row := range rowsOf(sw) {
 					if row.Def {
 						continue
@@ -158,7 +158,7 @@ func ruleT6(c *Ctx) {
 		}
 		switch sel.Sel.Name {
 		case "Scale":
-			want := map[int64]int64{1: 0x00, 2: 0x40, 4: 0x80, 8: 0xC0}
+			want := map[int64]int64{0: 0x00, 1: 0x00, 2: 0x40, 4: 0x80, 8: 0xC0} // 0: no index register — the ss bits are zero
 			for _, kv := range t.Rows {
 				k, ok1 := constInt(info, kv.Key)
 				v, ok2 := constInt(info, kv.Value)
@@ -191,7 +191,7 @@ func ruleT6(c *Ctx) {
 			}
 		}
 	}
-	c.check(n16 >= 11 && n32 >= 9 && nsc == 4, "T6", "calculateModRM|table sizes", c.L.Pos(fd.Pos()), fmt.Sprintf("%d 16-bit rows, %d 32-bit rows, %d scale rows", n16, n32, nsc))
+	c.check(n16 >= 11 && n32 >= 9 && (nsc == 4 || nsc == 5), "T6", "calculateModRM|table sizes", c.L.Pos(fd.Pos()), fmt.Sprintf("%d 16-bit rows, %d 32-bit rows, %d scale rows", n16, n32, nsc))
 
 	// mod constants: every constant assigned to `mod` is 00/01/10 (<<6)
 	ast.Inspect(fd.Body, func(n ast.Node) bool {
